@@ -21,11 +21,11 @@ impl Bytes {
 }
 impl BytesMut {
     pub open spec fn view(&self) -> Seq<u8> { self.v@ }
-    // A-bytes-01: remaining()/len() are the number of readable bytes
+    // A-bytes-01: remaining()/len() are the number of readable bytes (an allocation never exceeds isize::MAX)
     #[verifier::external_body]
-    pub fn remaining(&self) -> (r: usize) ensures r == self@.len() { unimplemented!() }
+    pub fn remaining(&self) -> (r: usize) ensures r == self@.len(), r <= isize::MAX as usize { unimplemented!() }
     #[verifier::external_body]
-    pub fn len(&self) -> (r: usize) ensures r == self@.len() { unimplemented!() }
+    pub fn len(&self) -> (r: usize) ensures r == self@.len(), r <= isize::MAX as usize { unimplemented!() }
     #[verifier::external_body]
     pub fn is_empty(&self) -> (r: bool) ensures r == (self@.len() == 0) { unimplemented!() }
     #[verifier::external_body]
